@@ -55,6 +55,7 @@ structure Wire.WF (x : Wire) : Prop where
   isProto : IsProto x.proto
   fit : x.method.length + x.target.length + 11 ≤ 16001
   wfHeaders : WFHeaders x.hs
+  coding : CodingOk (norm x.hs)      -- a transfer coding, if named, ends in chunked (anything else is refused: 4dff910)
   reads : BodyReads (norm x.hs) x.w x.body
 
 theorem reads_of_framed {H : Dic} {w body : Bytes} (h : Framed sendBlock H w body) : BodyReads H w body :=
@@ -64,7 +65,7 @@ theorem reads_of_framed {H : Dic} {w body : Bytes} (h : Framed sendBlock H w bod
 fragmentation, followed by anything — the reader returns exactly that request and stops exactly behind it. -/
 theorem wire_request_exact (x : Wire) (h : x.WF) (rest : Bytes) (i : Inp) (hi : Live i) (hd : i.data = x.bytes ++ rest) :
     ∃ i' : Inp, readRequest i = (x.expected, i') ∧ i'.data = rest ∧ Live i' :=
-  readRequest_wire x.method x.target x.proto x.hs x.w x.body rest h.wfMethod h.wfTarget h.isProto h.fit h.wfHeaders h.reads i hi
+  readRequest_wire x.method x.target x.proto x.hs x.w x.body rest h.wfMethod h.wfTarget h.isProto h.fit h.wfHeaders h.coding h.reads i hi
     (by rw [hd]; simp [Wire.bytes, List.append_assoc])
 
 /-- the request as the handler must see it (written from the HTTP semantics, not from the code): same method, same
@@ -118,7 +119,7 @@ theorem clientWire_wf (method target host : Bytes) (port : Nat) (hs : Dic) (body
     (h : WFRequest method target host port hs body) : (clientWire method target host port hs body).WF := by
   obtain ⟨hm, ht, hfit, hhp, hhpfit, hwf, hres, hbody⟩ := h
   obtain ⟨hfr, hmem⟩ := client_framed sendBlock (host ++ [58] ++ utoa port) hs body sendBlock_pos hwf hres hhp.1 hbody
-  refine ⟨hm, ht, Or.inl rfl, hfit, ?_, ?_⟩
+  refine ⟨hm, ht, Or.inl rfl, hfit, ?_, ?_, ?_⟩
   · intro x hx
     rcases List.mem_cons.mp hx with h | h
     · subst h; exact ⟨wf_name_host, hhp, hhpfit⟩
@@ -128,6 +129,13 @@ theorem clientWire_wf (method target host : Bytes) (port : Nat) (hs : Dic) (body
         have := utoa_length body.length hbody
         unfold FitsLine; simp [sContentLength]; omega
       · exact hwf x h
+  · apply codingOk_of_absent
+    intro x hx
+    rcases List.mem_cons.mp hx with h | h
+    · subst h; exact ⟨hhp.1, cap_host_ne.2⟩
+    · rcases hmem x (by simpa [clientMsg] using h) with h | h
+      · subst h; exact ⟨utoa_ne_nil _, cap_cl_ne_te⟩
+      · exact ⟨(hwf x h).2.1.1, (hres x h).2⟩
   · have := reads_of_framed hfr
     simpa [clientWire, wireHeaders, clientMsg] using this
 
@@ -172,11 +180,11 @@ theorem chunked_request_roundtrip (method target host : Bytes) (port : Nat) (hs0
       i'.data = rest ∧ Live i' ∧ q.method = method ∧ q.resource = target ∧ q.body = body ∧
       q.headers = norm ((sHostName, host ++ [58] ++ utoa port) :: setHeader hs0 sTransferEncoding sChunked) ∧
       hasHeader q.headers sContentLength = false := by
-  obtain ⟨h1, h2, h3, hD, hfr⟩ := client_chunked_framed hs0 hh hnf (host ++ [58] ++ utoa port) body hhp.1
+  obtain ⟨h1, h2, h3, hD, hfr, hco⟩ := client_chunked_framed hs0 hh hnf (host ++ [58] ++ utoa port) body hhp.1
   let x : Wire := Wire.mk method target sHttp11 ((sHostName, host ++ [58] ++ utoa port) :: setHeader hs0 sTransferEncoding sChunked)
     (writeBody true sendBlock body ++ lastChunk) body
   have hwf : x.WF := by
-    refine ⟨hm, ht, Or.inl rfl, hfit, ?_, reads_of_framed hfr⟩
+    refine ⟨hm, ht, Or.inl rfl, hfit, ?_, hco, reads_of_framed hfr⟩
     intro y hy
     rcases List.mem_cons.mp hy with h | h
     · subst h; exact ⟨wf_name_host, hhp, hhpfit⟩
@@ -397,8 +405,26 @@ theorem stream_roundtrip (proto : Bytes) (code : Nat) (hs : Dic) (parts : List B
     unfold isChunked; rw [(header_of_dicGet_none cap_cl hcl).1]; rfl
   obtain ⟨i', hread, hdat, hlive⟩ := readResponse_dict_chunked proto code _ parts rest hp hcode hret.1 hD hcl hte
     (Inp.ofBytes (serializeStream sendBlock (statusLine proto code) (setHeader hs sTransferEncoding sChunked) parts true ++ rest) cuts)
-    ⟨rfl, rfl⟩ (by simp [Inp.ofBytes, serializeStream, sentHeaders_no_cl hcl, hchunk, List.append_assoc])
+    ⟨rfl, rfl⟩ (by simp [Inp.ofBytes, serializeStream, (streamHeaders_named hte hcl).1, (streamHeaders_named hte hcl).2, hchunk, List.append_assoc])
   exact ⟨_, i', hread, hdat, hlive, ⟨rfl, rfl, rfl, rfl, rfl⟩⟩
+
+/-- **auto_stream_roundtrip** (after the repair 75c75d0).  A handler that writes its response in pieces with `write(part)`
+and names neither a length nor a coding: the library sends the pieces as chunks, announces `Transfer-Encoding: chunked`
+itself and ends the stream with the last chunk; the client returns the concatenation of the parts and the handler's
+dictionary with the coding added, for every fragmentation. -/
+theorem auto_stream_roundtrip (proto : Bytes) (code : Nat) (hs : Dic) (parts : List Bytes) (rest : Bytes) (cuts : List Nat)
+    (hp : IsProto proto) (hcode : code < 2147483648) (hh : HandlerHeaders hs)
+    (hret : ReturnedAsIs code (setHeader hs sTransferEncoding sChunked)) :
+    ∃ (r : Response) (i' : Inp),
+      readResponse (Inp.ofBytes (serializeStream sendBlock (statusLine proto code) hs parts false ++ rest) cuts) = (r, i') ∧
+      i'.data = rest ∧ Live i' ∧
+      SeesResponse r code proto (setHeader hs sTransferEncoding sChunked) parts.flatten := by
+  have hcl : dicGet hs sContentLength = none :=
+    dicGet_none_of_keys (canon_key_ne hh.canon (fun x hx => (hh.noFraming x hx).1))
+  have hte : dicGet hs sTransferEncoding = none :=
+    dicGet_none_of_keys (canon_key_ne hh.canon (fun x hx => (hh.noFraming x hx).2))
+  rw [serializeStream_own _ _ _ _ hcl hte]
+  exact stream_roundtrip proto code hs parts rest cuts hp hcode hh hret
 
 /-- **chunked_put_roundtrip** (after the repairs 07183e2, c720b96).  A handler that asks for the chunked coding
 (`setHeader("Transfer-Encoding", "chunked")`) and then gives its body with `put()`: the Content-Length that `put` sets does
@@ -893,7 +919,7 @@ def exampleRaw : Wire :=
     body := [1, 2, 3, 4, 5, 6, 7, 8, 9, 10] ++ [] }
 
 example : exampleRaw.Keeps := by
-  refine ⟨⟨?_, ?_, Or.inr rfl, by decide, ?_, ?_⟩, by decide, keepOf_keepalive _ (by decide)⟩
+  refine ⟨⟨?_, ?_, Or.inr rfl, by decide, ?_, codingOk_of_chunked (by decide), ?_⟩, by decide, keepOf_keepalive _ (by decide)⟩
   · unfold WFWord; decide
   · unfold WFWord; decide
   · unfold WFHeaders WFName WFValue FitsLine; decide
